@@ -74,9 +74,9 @@ class ServePool:
             self.procs[hs] = p
         return p
 
-    def execute(self, hs, run, unmask=(), with_obs=False, timeout=120):
+    def execute(self, hs, run, unmask=(), with_obs=False, timeout=120, history=()):
         p = self._get(hs)
-        req = json.dumps({"run": run, "unmask": list(unmask), "with_obs": with_obs})
+        req = json.dumps({"run": run, "unmask": list(unmask), "with_obs": with_obs, "history": list(history)})
         try:
             p.stdin.write(req + "\n")
             p.stdin.flush()
@@ -188,6 +188,43 @@ def lockstep_sig(prop, pool, run, h1, h2):
     return f"{prop}/hashseed/{op}", {"obs_index": i, f"hashseed_{h1}": x, f"hashseed_{h2}": y}
 
 
+def fresh_execute(prop, hs, run, unmask=(), history=()):
+    """Execute in a brand-new interpreter (no state left over from earlier requests)."""
+    pool = ServePool(prop)
+    try:
+        return pool.execute(hs, run, unmask=unmask, history=history, timeout=300)
+    finally:
+        pool.close()
+
+
+def minimise_history(prop, mod, run, sig, hs, earlier, budget_n=120):
+    """The violation needs runs executed earlier in the same interpreter: minimise the list of earlier
+    runs (each candidate in a fresh interpreter), then the steps of the failing run itself."""
+    budget = shrink.Budget(budget_n)
+
+    def fails(hist, r):
+        res = fresh_execute(prop, hs, r, unmask=[sig], history=hist)
+        return any(v["sig"] == sig for v in res["violations"])
+
+    if not budget.take() or not fails(earlier, run):
+        return run, [], {"reproduced": False, "executions": budget.used}
+    hist = list(earlier)
+    if hist:
+        hist = shrink.ddmin(hist, lambda h: fails(h, run), budget) if len(hist) > 1 else hist
+        if len(hist) == 1 and budget.take() and fails([], run):
+            hist = []
+    trace = shrink.ddmin(run["trace"], lambda t: fails(hist, dict(run, trace=t)), budget)
+    # shorten the earlier runs too
+    for i in range(len(hist)):
+        ht = shrink.ddmin(hist[i]["trace"],
+                          lambda t, i=i: fails(hist[:i] + [dict(hist[i], trace=t)] + hist[i + 1:], dict(run, trace=trace)),
+                          budget)
+        hist[i] = dict(hist[i], trace=ht)
+    return dict(run, trace=trace), hist, {"reproduced": True, "executions": budget.used,
+                                          "from_steps": len(run["trace"]), "to_steps": len(trace),
+                                          "earlier_runs_needed": len(hist), "earlier_runs_from": len(earlier)}
+
+
 def minimise(prop, mod, pool, run, sig, kind, hash_seeds, budget_n=400):
     budget = shrink.Budget(budget_n)
 
@@ -210,14 +247,15 @@ def minimise(prop, mod, pool, run, sig, kind, hash_seeds, budget_n=400):
                                     "from_steps": len(run["trace"]), "to_steps": len(trace)}
 
 
-def write_replay(prop, seed, index, hash_seeds, kind, sig, detail, run, info, subdir=""):
+def write_replay(prop, seed, index, hash_seeds, kind, sig, detail, run, info, subdir="", history=None):
     d = os.path.join(os.environ.get("VERIF_REPLAY_DIR") or os.path.join(VERIF, "replays"), subdir)
     os.makedirs(d, exist_ok=True)
     name = f"{prop}-{seed}-{index}-{R.digest(sig)[:8]}.json"
     path = os.path.join(d, name)
     with open(path, "w") as f:
         json.dump({"property": prop, "verif_seed": seed, "run_index": index, "hash_seeds": hash_seeds,
-                   "kind": kind, "signature": sig, "detail": detail, "minimised": info, "run": run},
+                   "kind": kind, "signature": sig, "detail": detail, "minimised": info, "run": run,
+                   "history": history or []},
                   f, indent=1, sort_keys=True)
     return path
 
@@ -233,7 +271,7 @@ def replay_file(path, quiet=False):
             sig, detail = lockstep_sig(prop, pool, rp["run"], h1, h2)
             ok = sig == rp["signature"]
             return ok, {"signature": sig, "detail": detail}
-        r = pool.execute(rp["hash_seeds"][0], rp["run"], unmask=[rp["signature"]])
+        r = pool.execute(rp["hash_seeds"][0], rp["run"], unmask=[rp["signature"]], history=rp.get("history", []))
         if r.get("harness_error"):
             return False, {"harness_error": r["harness_error"]}
         for v in r["violations"]:
@@ -346,12 +384,22 @@ def run_check(prop, tier):
         for kind, v, hss in todo[:4]:
             small, info = minimise(prop, mod, pool, v["run"], v["sig"], kind, hss,
                                    int(cfg.get("shrink_budget", 400)))
+            history = []
+            if not info.get("reproduced") and kind == "invariant":
+                # does it need what the same worker interpreter executed before this run?
+                chunk = int(cfg.get("chunk", 200))
+                first = (v["index"] // chunk) * chunk
+                earlier = [mod.generate(R.rng_for(seed, prop, j), cfg) for j in range(first, v["index"])]
+                small, history, info = minimise_history(prop, mod, v["run"], v["sig"], hss[0], earlier)
+                if info.get("reproduced"):
+                    kind = "history"
             if not info.get("reproduced"):
                 print(f"HARNESS-ERROR: violation {v['sig']} of run {v['index']} did not reproduce in a fresh "
                       f"interpreter; detail: {v['detail']}", flush=True)
                 rc = max(rc, EXIT_HARNESS)
                 continue
-            path = write_replay(prop, seed, v["index"], hss, kind, v["sig"], v["detail"], small, info)
+            path = write_replay(prop, seed, v["index"], hss, kind, v["sig"], v["detail"], small, info,
+                                history=history)
             ok, text = replay_file(path)
             if not ok:
                 print(f"HARNESS-ERROR: minimised replay {path} did not reproduce: {text}", flush=True)
@@ -360,7 +408,9 @@ def run_check(prop, tier):
             print(f"[icalsim] violation signature: {v['sig']}", flush=True)
             print(f"[icalsim] detail: {json.dumps(text)[:1500]}", flush=True)
             print(f"[icalsim] minimised {info['from_steps']} -> {info['to_steps']} steps "
-                  f"in {info['executions']} executions", flush=True)
+                  f"in {info['executions']} executions"
+                  + (f"; needs {info['earlier_runs_needed']} earlier run(s) in the same interpreter "
+                     f"(of {info['earlier_runs_from']})" if kind == "history" else ""), flush=True)
             print(f"VIOLATION property={prop} replay={path}", flush=True)
             reported.append({"sig": v["sig"], "replay": path})
         if reported:
